@@ -22,6 +22,8 @@ from pytezos.michelson.forge import unforge_chain_id
 from pytezos.michelson.forge import unforge_contract
 from pytezos.michelson.forge import unforge_public_key
 from pytezos.michelson.forge import unforge_signature
+from pytezos.michelson.format import MAX_RFC3339_TIMESTAMP
+from pytezos.michelson.format import MIN_RFC3339_TIMESTAMP
 from pytezos.michelson.format import format_timestamp
 from pytezos.michelson.format import micheline_to_michelson
 from pytezos.michelson.micheline import Micheline
@@ -58,6 +60,8 @@ class TimestampType(IntType, prim='timestamp'):  # type: ignore
         if mode in ['optimized', 'legacy_optimized']:
             return {'int': str(self.value)}
         elif mode == 'readable':
+            if not MIN_RFC3339_TIMESTAMP <= self.value <= MAX_RFC3339_TIMESTAMP:
+                return {'int': str(self.value)}
             return {'string': format_timestamp(self.value)}
         else:
             raise AssertionError(f'unsupported mode {mode}')
